@@ -125,9 +125,9 @@ fn exhaustive(ctx: &Ctx, sink: &mut Sink, maxlen: usize, rng: &mut Rng) {
 }
 
 fn random_input(rng: &mut Rng, len: usize) -> Vec<u8> {
-    let words: [&[u8]; 14] = [
+    let words: [&[u8]; 20] = [
         b"a", b"bc", b" ", b"  ", b"\n", b"\t", b"'", b"\"", b"\\", "é".as_bytes(), "日本".as_bytes(),
-        b"\xff", b"x y", b"\r",
+        b"\xff", b"x y", b"\r", "à".as_bytes(), "Å".as_bytes(), b"\x0b", b"\x0c", b"\x85", b"\xa0",
     ];
     let mut v = vec![];
     while v.len() < len {
@@ -245,6 +245,22 @@ pub fn run_prop(ctx: &Ctx, sink: &mut Sink) {
         let mut tags = tags_for(&flat, &chunks, &r);
         tags.push("corpus");
         sink.push(Case { req: req(delim, &chunks), imp: r, tags });
+    }
+    // every byte value in every role: between words, alone, quoted, escaped, as the delimiter
+    for b in 0..=255u8 {
+        let shapes: Vec<Vec<u8>> = vec![
+            vec![b], vec![b'a', b, b'c'], vec![b, b'a'], vec![b'a', b], vec![b'\'', b, b'\''], vec![b'"', b'x', b, b'"'],
+            vec![b'\\', b], vec![b'a', b, b, b'c', b'\n'], vec![0xC3, b, b' ', b'z'],
+        ];
+        for sh in shapes {
+            for delim in [None, Some(0u8), Some(b)] {
+                let chunks = vec![sh.clone()];
+                let r = run(delim, &chunks);
+                let mut tags = tags_for(&sh, &chunks, &r);
+                tags.push("byte-sweep");
+                sink.push(Case { req: req(delim, &chunks), imp: r, tags });
+            }
+        }
     }
     exhaustive(ctx, sink, maxlen, &mut rng);
     random(sink, nrand, &mut rng);
